@@ -293,6 +293,74 @@ func c02TwoFileCase(I, W, s, d int64, swap bool, windows int) mc.Case {
 	return c
 }
 
+// (4) the honest prover also owns a file of its own, whose prover stops proving: what happens to that prover must not
+// touch the honest one
+func c02OwnerLapseCase(I, W, s int64) mc.Case {
+	c := mc.Case{Desc: fmt.Sprintf("ownerlapse|I=%d|W=%d|start=%d", I, W, s)}
+	fA, fB := c02WinFile, c02WinFile2
+	c.Prep = func(env world.Env) {
+		w := env.W()
+		setStorageParams(env, func(p *storagetypes.Params) { p.ChunkSize, p.ProofWindow, p.CheckWindow = 4, I, W })
+		for env.Ctx().BlockHeight() < s {
+			if bp := env.NextBlock(6 * time.Second); bp != nil {
+				panic(bp.Value)
+			}
+		}
+		u, h, h2 := w.A("U").Bech, w.A("H").Bech, w.A("H2").Bech
+		mustOK(env.Deliver(storagetypes.NewMsgPostFile(u, fA.merkle, int64(len(fA.data)), 0, 0, 1, "{}")), "PostFile A")
+		pb := storagetypes.NewMsgPostFile(h, fB.merkle, int64(len(fB.data)), 0, 0, 1, "{}")
+		pb.Expires = s + 200_000 // paid up front: the provider needs no plan to own a file
+		mustOK(env.Deliver(pb), "PostFile B")
+		for _, x := range []struct {
+			prover, owner string
+			f             *sfile
+		}{{h, u, fA}, {h2, h, fB}} {
+			item, hl := x.f.proofFor(0)
+			if ok, e := postProofOK(w, env.Deliver(storagetypes.NewMsgPostProof(x.prover, x.f.merkle, x.owner, s, item, hl, 0))); !ok {
+				panic("join proof rejected: " + e)
+			}
+		}
+	}
+	for o := int64(0); o < I; o++ {
+		c.Subs = append(c.Subs, fmt.Sprint(o))
+	}
+	c.Sub = func(env world.Env, sub string) mc.CaseResult {
+		w := env.W()
+		cr := mc.CaseResult{Class: "kept", Nontrivial: true}
+		u, h := w.A("U").Bech, w.A("H").Bech
+		var o int64
+		fmt.Sscan(sub, &o)
+		burn0, _ := burnOf(w, env.Ctx(), "H")
+		last := s + 5*I
+		for env.Ctx().BlockHeight() < last {
+			if bp := env.NextBlock(6 * time.Second); bp != nil {
+				cr.Viols = append(cr.Viols, viol("no-panic", "block-panic", "%s", bp.Value))
+				return cr
+			}
+			ht := env.Ctx().BlockHeight()
+			file, found := getFile(w, env.Ctx(), fA.merkle, u, s)
+			if !found || !proverListed(file, h) {
+				cr.Viols = append(cr.Viols, viol("honest-prover-never-removed", "removed owner-of-a-lapsing-file", "height %d: the honest prover was removed", ht))
+				return cr
+			}
+			if b, _ := burnOf(w, env.Ctx(), "H"); b != burn0 {
+				cr.Viols = append(cr.Viols, viol("honest-prover-never-burned", "burned owner-of-a-lapsing-file", "the honest prover H (which also owns a file whose prover stopped proving) had its burn counter raised %d -> %d at height %d", burn0, b, ht))
+				return cr
+			}
+			if ht >= s+I && (ht-s)%I == o { // one proof in every window of its file
+				pr, _ := w.App.StorageKeeper.GetProof(env.Ctx(), h, fA.merkle, u, s)
+				item, hl := fA.proofFor(int(pr.ChunkToProve))
+				if ok, e := postProofOK(w, env.Deliver(storagetypes.NewMsgPostProof(h, fA.merkle, u, s, item, hl, pr.ChunkToProve))); !ok {
+					cr.Viols = append(cr.Viols, viol("honest-proof-accepted", "rejected-in-window owner-of-a-lapsing-file", "height %d: %s", ht, e))
+					return cr
+				}
+			}
+		}
+		return cr
+	}
+	return c
+}
+
 func c02Enum(thorough bool) mc.Enum {
 	e := mc.Enum{Prop: "C02", Name: "C02/honest-prover", Cfg: c02Config(), Setup: c02Setup, ConfirmB: true, ConfB: 40}
 	for _, chunk := range []int64{1, 2, 3, 4, 5, 8} {
@@ -322,6 +390,7 @@ func c02Enum(thorough bool) mc.Enum {
 	for _, I := range []int64{2, 3} {
 		for _, W := range []int64{2, 3, 5} {
 			for s := int64(2); s < 2+W; s++ {
+				e.Cases = append(e.Cases, c02OwnerLapseCase(I, W, s))
 				for d := int64(1); d < I; d++ {
 					for _, swap := range []bool{false, true} {
 						e.Cases = append(e.Cases, c02TwoFileCase(I, W, s, d, swap, windows))
@@ -336,7 +405,7 @@ func c02Enum(thorough bool) mc.Enum {
 func init() {
 	CaseReplayers["C02/honest-prover"] = func(r *mc.Run, c string) { r.ReplayCase(c02Enum(true), c) }
 	Props["C02"] = Prop{Level: "exploration", Run: func(r *mc.Run, tier string) {
-		r.Rules = append(r.Rules, "(1) every file size 1..4c+1 for chunk size c in {1,2,3,4,5,8} (tree cross-checked with utils.BuildTree) x 64 consecutive challenge seeds (block gas) x 3 prove/re-challenge rounds on the real PostFile/PostProof; (2) proof window I in {2,3} (thorough {2,3,4,5}) x check window W in {2,3,4,5,7} x every file start phase x every join height in the first window x every placement vector of one proof per window over 3 (thorough 4) windows, one block at a time through the whole application's BeginBlocker/EndBlocker; (3) two files with out-of-phase proof windows (every phase difference, both walk orders), each with its own honest prover on the same schedules; one evaluation = one (configuration, seed or placement vector) execution")
+		r.Rules = append(r.Rules, "(1) every file size 1..4c+1 for chunk size c in {1,2,3,4,5,8} (tree cross-checked with utils.BuildTree) x 64 consecutive challenge seeds (block gas) x 3 prove/re-challenge rounds on the real PostFile/PostProof; (2) proof window I in {2,3} (thorough {2,3,4,5}) x check window W in {2,3,4,5,7} x every file start phase x every join height in the first window x every placement vector of one proof per window over 3 (thorough 4) windows, one block at a time through the whole application's BeginBlocker/EndBlocker; (3) two files with out-of-phase proof windows (every phase difference, both walk orders), each with its own honest prover on the same schedules; (4) the honest prover also owns a file whose prover stops proving; one evaluation = one (configuration, seed or placement vector) execution")
 		r.Assumptions = append(r.Assumptions, "behaviour of the window predicates depends only on (h-start) mod I and h mod W, so one period of start phases covers every phase relation", "SHA-256/SHA3 collision freedom")
 		dl := time.Now().Add(70 * time.Second)
 		if tier == "thorough" {
